@@ -67,6 +67,17 @@ def plan(seed, subbatch):
             names.add(nm)
             members.append(s)
         hexcfg = {}
+        if tf and cfg.random() < 0.25:
+            # the Hexital itself on the timeframe; at most one member names it explicitly, the rest inherit it
+            hexcfg = {"timeframe": tf}
+            keep_explicit = cfg.randint(0, len(members) - 1) if cfg.random() < 0.6 else -1
+            for k, mm in enumerate(members):
+                if k != keep_explicit:
+                    mm["common"].pop("timeframe", None)
+            names2 = set()
+            members = [mm for mm in members
+                       if not (member_name(dict(mm, common=dict(mm["common"], timeframe=tf))) in names2
+                               or names2.add(member_name(dict(mm, common=dict(mm["common"], timeframe=tf)))))]
     n = planlib.pick_n(cfg, (2, 12), (8, 50), (30, 120))
     lifespan = None
     if cfg.random() < 0.2:
@@ -111,7 +122,8 @@ def plan(seed, subbatch):
         fired["lifespan_configured"] += 1
     return {"format": 1, "property": ID, "seed": seed, "subbatch": subbatch,
             "config": {"kind": kind, "members": members, "hexital": hexcfg, "base_s": base_s},
-            "ops": [{"op": "new", "preload": pre}] + ops + [{"op": "calculate", "target": None}], "fired": dict(fired)}
+            "ops": [{"op": "new", "preload": pre, "calculate": cfg.random() < 0.7}] + ops
+                   + [{"op": "calculate", "target": None}], "fired": dict(fired)}
 
 
 CANDLE_ATTRS = ("open", "high", "low", "close", "volume", "positive", "negative", "realbody",
@@ -203,6 +215,11 @@ def execute(trace, ctx=None):
                             comparisons += len(answers)
                 # default-position accessors answer for the NEWEST candle
                 own = slot.name
+                if own in CANDLE_ATTRS:
+                    # a member named like a candle attribute "has a reading" on every candle without ever
+                    # being calculated; before the first calculate() the cursor has not moved yet, so the
+                    # default-position accessors legitimately show candle 0's attribute
+                    continue
                 newest = _direct(candles[-1], own)
                 before_newest = _direct(candles[-2], own) if n >= 2 else None
                 try:
@@ -249,7 +266,8 @@ def execute(trace, ctx=None):
             kind = op["op"]
             try:
                 if kind == "new":
-                    m.new(op.get("preload") or [])
+                    # sometimes nothing is calculated at construction: the cursor has never moved
+                    m.new(op.get("preload") or [], calculate=op.get("calculate", True))
                 elif m.subject is None:
                     continue
                 elif kind == "append":
@@ -266,7 +284,8 @@ def execute(trace, ctx=None):
                     if m.kind != "hexital" or any(s.name == member_name(op["spec"]) for s in m.live_slots()):
                         continue
                     m.add(op["spec"])
-                    m.calculate(None)
+                    if i % 2:
+                        m.calculate(None)   # otherwise the new member stays uncalculated until the next op
                     run.stats["late_member_on_new_timeframe"] += 1
                     maint += 1
                 elif kind == "calc_index":
